@@ -71,7 +71,7 @@ def edit_rules(rng, rules):
         pools = {"account": ACCT_PATS, "address": ADDR_PATS, "username": USER_PATS, "hostname": HOST_PATS}
         present = [k for k in pools if k in r]
         if how < 0.5 and present:
-            k = rng.choice(present)
+            k = "address" if ("address" in present and rng.random() < 0.5) else rng.choice(present)
             r[k] = rng.choice([x for x in pools[k] if x != r[k]])
         elif how < 0.7:
             r["class"] = rng.choice(["moved", "c-" + r["name"].lower() + "2", "Users"])
@@ -181,11 +181,18 @@ def _worker(a):
         # probing goes on: the rules in force at acceptance time are those of the file read last
         rr = random.Random(seed ^ 0x2545f491)
         reload_at = sorted(rr.sample(range(4, nprobes - 2), rr.choice([1, 2]))) if (seed % 2 and nprobes > 10) else []
+        last_ip = None
         for k in range(nprobes):
+            force_ip = None
             if k in reload_at:
                 rules = edit_rules(rr, rules)
                 s.do({"t": "reload", "services": [list(x) for x in svcs], "rules": rules})
-            probe(s, rng, 10 + k, rules)
+                if rr.random() < 0.6:
+                    force_ip = last_ip      # the first client after the reload comes from where the last one before it came from
+            st_ = rng.getstate()
+            last_ip = force_ip or rng.choice(IPS)
+            rng.setstate(st_)
+            probe(s, rng, 10 + k, rules, ip=force_ip)
             if s.dead:
                 break
         s.do({"t": "stats"})
